@@ -159,12 +159,12 @@ impl Sim {
 
     /// Run the real `Cpu::run()` with the given per-iteration callback and host clock.
     pub fn run(&mut self, cb: verif_hooks::LoopCallback, clock: Box<dyn VerifClock>, wait_start: bool) -> Outcome {
-        self.run_opt(cb, clock, wait_start, false)
+        self.run_opt(cb, clock, wait_start, false, false)
     }
 
-    pub fn run_opt(&mut self, cb: verif_hooks::LoopCallback, clock: Box<dyn VerifClock>, wait_start: bool, print_msgs: bool) -> Outcome {
+    pub fn run_opt(&mut self, cb: verif_hooks::LoopCallback, clock: Box<dyn VerifClock>, wait_start: bool, print_msgs: bool, print_opcode: bool) -> Outcome {
         *setting::ENABLE_WAIT_START.write().unwrap() = wait_start;
-        *setting::ENABLE_PRINT_OPCODE.write().unwrap() = false;
+        *setting::ENABLE_PRINT_OPCODE.write().unwrap() = print_opcode;
         *setting::ENABLE_PRINT_MESSAGES.write().unwrap() = print_msgs;
         verif_hooks::set_clock(clock);
         verif_hooks::set_loop_callback(Some(cb));
@@ -174,6 +174,7 @@ impl Sim {
         verif_hooks::set_loop_callback(None);
         verif_hooks::reset_clock();
         *setting::ENABLE_PRINT_MESSAGES.write().unwrap() = false;
+        *setting::ENABLE_PRINT_OPCODE.write().unwrap() = false;
         classify(r)
     }
 }
